@@ -23,7 +23,7 @@ func randCase(r *core.Rng, s string) string {
 }
 
 func c16Scalar(r *core.Rng) any {
-	switch r.Intn(22) {
+	switch r.Intn(24) {
 	case 0:
 		return nil
 	case 1:
@@ -62,6 +62,10 @@ func c16Scalar(r *core.Rng) any {
 		return []string{"a", "b"}
 	case 18:
 		return map[string]any{"k": nil}
+	case 19:
+		return (*stackage.ComparisonOperator)(nil) // a typed nil pointer that satisfies the Operator interface
+	case 20:
+		return (*UserOp)(nil)
 	}
 	return fmt.Sprintf("junk%d", r.Intn(50))
 }
@@ -84,6 +88,8 @@ func c16Row(r *core.Rng, depth int) []any {
 			switch {
 			case i == 0 && r.Chance(3, 4):
 				row = append(row, fmt.Sprintf("kw%d", r.Intn(9)))
+			case i == 1 && r.Chance(1, 12):
+				row = append(row, (*stackage.ComparisonOperator)(nil))
 			case i == 1 && r.Chance(2, 3):
 				row = append(row, stackage.ComparisonOperator(1+r.Intn(6)))
 			case i == 2 && depth > 0 && r.Chance(1, 3):
